@@ -266,6 +266,20 @@ func opInnovHistory(g *G) (interface{}, []uint64, int, interface{}) {
 			return nil, nil, 0, nil
 		}
 		pl.kind, pl.start = "spawn:rand", gn
+	case c < 14:
+		// a start genome whose gene lines are not in innovation order (the plain reader keeps file order and
+		// Genome.verify does not look at gene order): the gene with the highest number is moved to the front
+		gn := loadStartGenome(startGenomeFiles[g.intn(len(startGenomeFiles))])
+		if g.chance(0.5) {
+			gn = handGenome(g, 0)
+		}
+		if len(gn.Genes) < 2 {
+			return nil, nil, 0, nil
+		}
+		last := gn.Genes[len(gn.Genes)-1]
+		copy(gn.Genes[1:], gn.Genes[:len(gn.Genes)-1])
+		gn.Genes[0] = last
+		pl.kind, pl.start = "spawn:unsorted", gn
 	case c < 16:
 		pl.kind = "random"
 		pl.in, pl.out, pl.maxHidden = 2+g.intn(3), 1+g.intn(2), 1+g.intn(4)
